@@ -10,15 +10,16 @@ from common import (penman, layout, Graph, j_graph, j_tree, j_node, j_triple, py
 
 VARS = ['a', 'b', 'c', 'd', 'e', 'x1', 'x2', '_', '_2', 'a2']
 CONCEPTS = ['alpha', 'beta', 'Chase-01', '"str ing"', '"(x"', 'a', 'b', '7', 'have-mod-91', 'include-91',
-            'own-01', 'have-03', 'ôter', '中', '_x', '"q~1"', '-', 'have-org-role-91', '٣', 'İ', '0', '1.5']
+            'own-01', 'have-03', 'ôter', '中', '_x', '"q~1"', '-', 'have-org-role-91', '٣', 'İ', '0', '1.5',
+            '²-norm', '½life', 'Ⅷ-century', '①a']
 ROLES_PLAIN = [':ARG0', ':ARG1', ':ARG2', ':op1', ':op2', ':op10', ':mod', ':domain', ':quant', ':polarity',
                ':consist-of', ':prep-on-behalf-of', ':superset', ':subset', ':poss', ':beneficiary', ':name',
                ':foo', ':R', ':', ':snt3', ':wiki', ':time', ':location', ':ARG10', ':role', ':employed-by', ':TOP',
                ':consist', ':prep-on-behalf', ':prep-out-of', ':prep-out', ':mode', ':year2', ':year', ':prep-on',
                ':instance', ':ARG0xyz', ':modabc', ':polarity-on', ':quant-if']
 CONSTS = ['-', '+', '7', '0', '0.0', '-1.5e3', '"a b"', '"x:y(z)"', '"\\"q\\""', '"C:\\\\"', '"e\\\\\\"f"', 'imperative', 'x~y', '"t~1"',
-          '"#h"', '"a #b"', '"see #5, ^ x"', 'a/b', 'Ω', '"é "', '""', '1e400', 'true', 'null', 'NaN']
-ALNS = ['~1', '~e.2', '~e.1,2', '~E.3', '~x4', '~01', '~2,03']
+          '"#h"', '"a #b"', '"see #5, ^ x"', '"~/d"', '"~5"', '"say \\"~\\" x"', 'a/b', 'Ω', '"é "', '""', '1e400', 'true', 'null', 'NaN']
+ALNS = ['~1', '~e.2', '~e.1,2', '~E.3', '~x4', '~01', '~2,03', '~3,1', '~e.5,2,4']
 BLANKS = [' ', '  ', '\t', '\n', '\n  ', ' \n', '\r\n', '\r', '\x0b', '\x0c']
 EXOTIC = ['\xa0', '　', ' ', '\x85', '\x1c', ' ']
 
@@ -112,7 +113,7 @@ class TreeGen:
         if not self.aligned:
             return ''
         if self.wf_strict:
-            return self.rng.choice(['~1', '~e.2', '~e.1,2', '~E.3', '~x4']) if maybe(self.rng, p) else ''
+            return self.rng.choice(['~1', '~e.2', '~e.1,2', '~E.3', '~x4', '~3,1', '~e.5,2,4']) if maybe(self.rng, p) else ''
         return aln(self.rng, p)
 
     def role_(self):
@@ -537,7 +538,8 @@ FMTS = [['pre', 'j'], ['pre', 'i'], [['lit', 'v'], 'i'], ['pre', ['lit', '_'], '
 
 
 def gen_constant_string(rng):
-    parts = ['"', '\\', 'a', 'é', '\n', '\t', '\x00', '\x7f', ' ', ' ', '(', ')', '~', ':', '/', '#', '😀', '\x1f', 'u', '0']
+    parts = ['"', '\\', 'a', 'é', '\n', '\t', '\x00', '\x7f', ' ', ' ', '(', ')', '~', ':', '/', '#', '😀', '\x1f', 'u', '0',
+             '\x08', '\x0c', '\r', '\x0b', 'b', 'f', 'n']
     n = rng.randint(0, 8)
     return ''.join(rng.choice(parts) for _ in range(n))
 
